@@ -15,8 +15,11 @@ package main
 // carrying ITS OWN identifier; a connection that carried an abandoned exchange carries no later
 // exchange; no panic (scenarios run in a child process: a panic in one of the client's own goroutines
 // kills the process); a call during which nothing fails, on an open client whose earlier faults have
-// been processed, succeeds; at most 4 transmissions per call; after Close calls fail without dialing;
-// after Close the client's goroutines are gone.
+// been processed, succeeds — also when it was waiting for the client while the fault hit the call before it; at
+// most 4 transmissions per call, counted as request messages on the wire; the retry budget itself is OBSERVED
+// (dry run) and handed to the model with every scenario; after Close calls fail without dialing; Close is
+// idempotent; after Close the goroutines started by the client are gone (positive control: they are seen while
+// a connection is open).
 //
 // Correspondence: `lts.member cliconn current <spec> <scenario> <outcome>`; the model explores every
 // interleaving of Kmip.CliConn under the scenario script and answers whether the observed outcome is
@@ -29,6 +32,7 @@ import (
 	"errors"
 	"fmt"
 	"io"
+	"net"
 	"os"
 	"os/exec"
 	"runtime"
@@ -49,12 +53,12 @@ import (
 // scenario specification (one token, no spaces): fam:n:pt:srv:faults:next:seed
 
 type lcSpec struct {
-	fam    string // c10 | flt | neg | cls | rty
-	n      int    // c10: callers ; rty: number of connections the server drops ; cls: 0 sync / 1 async Close
-	pt     string // yield point (short name) or "-"
-	srv    string // c10: when the victim's request is answered: early | late | never
+	fam    string // c10 | flt | neg | cls | rty | win | dlk | dry
+	n      int    // c10: callers ; rty: number of connections the server drops ; cls: 0 sync / 1 async Close ; win: polling goroutines
+	pt     string // yield point (short name), timeout | inWrite | queued (c10), or "-"
+	srv    string // c10: when the victim's request is answered: early | late | never ; rty: how the server drops: eof | closed
 	faults []*lcFault
-	next   string // flt: call | calls3 | close | cclose
+	next   string // flt: call | calls3 | close | cclose | conc ; c10: - | dl (deadline instead of cancel) | twice | dltwice
 	seed   int    // > 0: random perturbation at the yield points
 }
 
@@ -192,16 +196,19 @@ type lcEnv struct {
 	extra    map[int]string // additional fault letters per phase (faults not injected through lcFault)
 	mu       sync.Mutex
 	termObjs map[string]bool // connections seen at cli.terminate.afterCancel
+	exactDials bool          // the dial count is part of the canonical outcome
 	r        *rng.R
 }
 
-const lcCallLimit = 5 * time.Second
+// observed by the dry run (parent) and handed to the children through the environment:
+// lcBudget = number of times one call transmits its request when every connection is dropped (0 = not known).
+var lcBudget int
 
 func newLcEnv(spec *lcSpec, res *lcResult) *lcEnv {
 	e := &lcEnv{spec: spec, res: res, armed: map[*lcFault]int{}, termObjs: map[string]bool{}, extra: map[int]string{}}
 	e.srv = newLcServer()
-	e.net = &lcNet{srv: e.srv}
 	e.dir = newLcDirector()
+	e.net = &lcNet{srv: e.srv, dir: e.dir}
 	if spec.seed > 0 {
 		e.r = rng.New(uint64(spec.seed))
 	}
@@ -247,35 +254,40 @@ func (e *lcEnv) terminated() int {
 	return len(e.termObjs)
 }
 
-// killed = connections the injector has broken.
-func (e *lcEnv) killed() int {
-	e.net.mu.Lock()
-	defer e.net.mu.Unlock()
-	n := 0
-	for _, c := range e.net.conns {
-		if c.dead.Load() != nil {
-			n++
-		}
-	}
-	return n
-}
-
-// settle waits until every connection broken by the injector has cancelled its context (the fault has
-// been processed by the client); a broken connection that never does is a violation.
+// settle waits until the client has closed the transport of every connection that has failed (the fault has been
+// processed: terminate cancels the connection before it closes the stream); a failed connection that the client
+// never closes is a violation. Nothing here depends on a verif hook.
 func (e *lcEnv) settle() bool {
 	if e.closed.Load() {
 		return true
 	}
-	deadline := time.Now().Add(2 * time.Second)
-	for e.terminated() < e.killed() {
+	deadline := time.Now().Add(lcWaitEvent)
+	for {
+		e.net.mu.Lock()
+		conns := append([]*lcConn(nil), e.net.conns...)
+		e.net.mu.Unlock()
+		broken, done := 0, 0
+		for _, c := range conns {
+			if c.broken() {
+				broken++
+				if c.cclosed.Load() {
+					done++
+				}
+			}
+		}
+		if done >= broken {
+			if broken > 0 {
+				time.Sleep(lcPause / 4)
+			}
+			return true
+		}
 		if time.Now().After(deadline) {
 			e.res.violate("C11", "fault-detected", "lts.cli:broken-connection-not-terminated",
-				fmt.Sprintf("a connection failed by the transport was not terminated within 2s (%d broken, %d terminated)", e.killed(), e.terminated()))
+				fmt.Sprintf("a connection failed by the transport was not closed by the client within %v (%d failed, %d closed)", lcWaitEvent, broken, done))
 			return false
 		}
 		time.Sleep(100 * time.Microsecond)
 	}
-	return true
 }
 
 func (e *lcEnv) firedCount() int {
@@ -334,16 +346,18 @@ type lcCall struct {
 	id      string
 	outcome string // ok | err | foreign | hang | panic
 	err     error
-	writes  int64
-	fired   int // faults fired during the call
-	conn    int // connection on which the server last saw the request (-1: never)
+	tx      int   // complete request messages carrying this call's identifier that the client has written
+	frames  int64 // request frames started on the wire, all callers, while the call was running
+	fired   int   // faults fired during the call
+	firedAt int   // total number of faults fired when the call returned
+	conn    int   // connection on which the server last saw the request (-1: never)
 	done    chan struct{}
 }
 
 // start issues Activate(id) in a goroutine.
 func (e *lcEnv) start(ctx context.Context, id string) *lcCall {
 	c := &lcCall{id: id, done: make(chan struct{})}
-	w0 := e.net.writes.Load()
+	w0 := e.net.frames.Load()
 	f0 := e.firedCount()
 	go func() {
 		defer close(c.done)
@@ -358,8 +372,10 @@ func (e *lcEnv) start(ctx context.Context, id string) *lcCall {
 			}
 			return out{resp.UniqueIdentifier, nil}
 		})
-		c.writes = e.net.writes.Load() - w0
-		c.fired = e.firedCount() - f0
+		c.frames = e.net.frames.Load() - w0
+		c.tx = e.net.txOf(id)
+		c.firedAt = e.firedCount()
+		c.fired = c.firedAt - f0
 		switch {
 		case p != "":
 			c.outcome = "panic"
@@ -386,7 +402,14 @@ func (e *lcEnv) wait(c *lcCall) {
 			fmt.Sprintf("call %q did not return within %v", c.id, lcCallLimit))
 	}
 	c.conn = e.srv.connOf(c.id)
+	if c.outcome != "hang" && c.tx > lcMaxTransmissions {
+		e.res.violate("C11", "transmissions", "lts.cli:more-than-4-transmissions",
+			fmt.Sprintf("call %q: %d request messages carrying its identifier were put on the wire", c.id, c.tx))
+	}
 }
+
+// the property: "a single call transmits its request at most four times".
+const lcMaxTransmissions = 4
 
 func (p *lcPhase) record(kind byte, c *lcCall) {
 	ok := c.outcome == "ok"
@@ -403,12 +426,19 @@ func (p *lcPhase) record(kind byte, c *lcCall) {
 }
 
 // plain runs one plain call to completion and applies the per-call oracles.
-// sequential: no other call is running (the transmission count is then exact).
+// sequential: no other call is running (every request frame started during it is then one of its transmissions).
 func (e *lcEnv) plain(p *lcPhase, mustSucceed bool) *lcCall {
+	return e.plainOpt(p, mustSucceed, mustSucceed)
+}
+
+// settleFirst: wait until the read-side faults that fired while the client was idle have been processed (a call that
+// overlaps the detection of a read error may legitimately fail with it). Not needed, and not done, after a WRITE
+// error: the call that got it returns only once the connection has been terminated.
+func (e *lcEnv) plainOpt(p *lcPhase, mustSucceed, settleFirst bool) *lcCall {
 	// faults that fire while the client is idle are processed before the call starts; one that fires
 	// between this check and the start of the call counts as occurring during the call
 	f0 := e.firedCount()
-	if mustSucceed {
+	if settleFirst {
 		e.settle()
 	}
 	dials0 := e.net.dialCount()
@@ -417,9 +447,9 @@ func (e *lcEnv) plain(p *lcPhase, mustSucceed bool) *lcCall {
 	e.wait(c)
 	c.fired = e.firedCount() - f0
 	p.record('p', c)
-	if c.writes > 4 {
+	if c.frames > lcMaxTransmissions {
 		e.res.violate("C11", "transmissions", "lts.cli:more-than-4-transmissions",
-			fmt.Sprintf("call %q was transmitted %d times", c.id, c.writes))
+			fmt.Sprintf("call %q: %d request messages were started on the wire during it (no other call running)", c.id, c.frames))
 	}
 	if wasClosed {
 		if c.outcome == "ok" {
@@ -427,6 +457,9 @@ func (e *lcEnv) plain(p *lcPhase, mustSucceed bool) *lcCall {
 		}
 		if e.net.dialCount() != dials0 {
 			e.res.violate("C11", "closed-stays-closed", "lts.cli:call-after-close-dials", "a call on a closed client dialed")
+		}
+		if c.frames != 0 {
+			e.res.violate("C11", "closed-stays-closed", "lts.cli:call-after-close-transmits", "a call on a closed client put a request on the wire")
 		}
 	} else if mustSucceed && c.fired == 0 && c.outcome == "err" {
 		e.res.violate("C11", "recovers", "lts.cli:call-fails-without-fault",
@@ -446,7 +479,7 @@ func (e *lcEnv) closeClient() {
 	e.closed.Store(true)
 }
 
-// finish: Close if needed, goroutine check, reuse check, outcome rendering, cleanup.
+// finish: Close if needed, idempotent Close, goroutine check, reuse check, outcome rendering, cleanup.
 func (e *lcEnv) finish(abandoned map[string]bool) {
 	if e.cl != nil && !e.closed.Load() {
 		p := e.begin("K")
@@ -454,18 +487,44 @@ func (e *lcEnv) finish(abandoned map[string]bool) {
 		e.closeClient()
 	}
 	if e.cl != nil {
-		if n := lcSettle(e.base, 2*time.Second); n > e.base {
+		// "idempotent close": closing again, from two goroutines, returns and does not panic
+		again := make(chan string, 2)
+		for i := 0; i < 2; i++ {
+			go func() {
+				_, p := guard("Close", func() error { return e.cl.Close() })
+				again <- p
+			}()
+		}
+		for i := 0; i < 2; i++ {
+			select {
+			case p := <-again:
+				if p != "" {
+					e.res.violate("C11", "no-panic", "lts.cli:panic-in-second-close "+panicKey(p), p)
+				}
+			case <-time.After(lcCallLimit):
+				e.res.violate("C11", "returns-promptly", "lts.cli:second-close-hangs", "a second Close() did not return")
+				i = 2
+			}
+		}
+		if n := lcSettle(e.base, lcWaitEvent); n > e.base {
 			e.res.violate("C11", "no-goroutine-left", "lts.cli:goroutines-after-close",
-				fmt.Sprintf("%d client goroutine(s) still running 2s after Close (yield log: %s)", n-e.base, strings.Join(e.dir.log, ",")))
+				fmt.Sprintf("%d goroutine(s) started by the client still running %v after Close: %s (yield log: %s)", n-e.base, lcWaitEvent, lcGoroutineDump(), strings.Join(e.dir.log, ",")))
 		}
 	}
-	// a connection that carried an abandoned exchange carries no later exchange
+	// a connection that carried an abandoned exchange carries no later exchange (only the requests of the
+	// harness's calls count: a farewell message of the client on the connection it gives up would not)
 	for ci := 0; ci < e.net.connCount(); ci++ {
 		ids := e.srv.seenOn(ci)
 		for i, id := range ids {
-			if abandoned[id] && i+1 < len(ids) {
-				e.res.violate("C10", "abandoned-conn-not-reused", "lts.cli:abandoned-connection-reused",
-					fmt.Sprintf("connection %d received %q after the abandoned %q", ci, ids[i+1], id))
+			if !abandoned[id] {
+				continue
+			}
+			for _, later := range ids[i+1:] {
+				if later != "" && later != "?" && later != "discover" && later != id {
+					e.res.violate("C10", "abandoned-conn-not-reused", "lts.cli:abandoned-connection-reused",
+						fmt.Sprintf("connection %d received the request %q after the abandoned %q", ci, later, id))
+					break
+				}
 			}
 		}
 	}
@@ -475,7 +534,7 @@ func (e *lcEnv) finish(abandoned map[string]bool) {
 	lcEnvCur.Unlock()
 	lcCur.Store(nil)
 	e.net.shutdown()
-	lcSettle(0, time.Second)
+	lcSettle(0, lcWaitEvent/2)
 }
 
 // render builds the model scenario and the canonical outcome.
@@ -520,7 +579,17 @@ func (e *lcEnv) render() {
 		out = append(out, fmt.Sprintf("%d.%d.%d.%d", p.okP, p.errP, p.okX, p.errX))
 	}
 	e.res.Scenario = strings.Join(sc, ";")
-	e.res.Outcome = strings.Join(out, ";") + "|d" + strconv.Itoa(e.net.dialCount())
+	if lcBudget > 0 {
+		// the retry budget the real code has been OBSERVED to have (re-transmissions after the first one)
+		e.res.Scenario = fmt.Sprintf("b%d;", lcBudget-1) + e.res.Scenario
+	}
+	// the number of dial attempts is part of the outcome only where the property speaks about dialing
+	// (closed clients, failed dials); elsewhere the model accepts any number.
+	d := "*"
+	if e.exactDials {
+		d = strconv.Itoa(e.net.dialCount())
+	}
+	e.res.Outcome = strings.Join(out, ";") + "|d" + d
 }
 
 func (e *lcEnv) dial(enforce bool) error {
@@ -577,6 +646,12 @@ func lcRun(spec *lcSpec) *lcResult {
 		lcRunRty(e)
 	case "dry":
 		lcRunDry(e)
+	case "dryneg":
+		lcRunDryNeg(e)
+	case "win":
+		lcRunWin(e)
+	case "dlk":
+		lcRunDlk(e)
 	default:
 		res.Fail = "unknown family"
 	}
@@ -596,10 +671,17 @@ func (e *lcEnv) warm() bool {
 		e.res.Fail = "warm-up call failed: " + c.outcome
 		return false
 	}
+	// positive control of the goroutine oracle: a client with an open connection has goroutines of its own
+	if n := lcClientGoroutines(); n <= e.base {
+		e.res.Fail = fmt.Sprintf("goroutine oracle is blind: no goroutine started by %s is visible while a connection is open (%d before Dial, %d now)", lcClientPkg, e.base, n)
+		return false
+	}
 	return true
 }
 
-// dry run: report the operation counts after the warm-up and after one more exchange.
+// dry run: report the I/O operation counts after the warm-up and after one more exchange, the duration of an
+// exchange (time scale of the harness), and the retry budget OBSERVED on the real code: the number of request
+// messages one call puts on the wire when the server drops every connection on receipt of a request.
 func lcRunDry(e *lcEnv) {
 	if !e.warm() {
 		e.finish(nil)
@@ -622,14 +704,62 @@ func lcRunDry(e *lcEnv) {
 	}
 	r0, w0 := stable()
 	p := e.begin("p")
+	t0 := time.Now()
 	e.plain(p, true)
+	exch := time.Since(t0)
 	r1, w1 := stable()
-	e.res.Counts = append(e.res.Counts, fmt.Sprintf("dry=%d,%d,%d,%d", r0[0], w0[0], r1[0], w1[0]))
+	e.res.Counts = append(e.res.Counts, fmt.Sprintf("dry=%d,%d,%d,%d", r0[0], w0[0], r1[0], w1[0]), fmt.Sprintf("exch=%d", exch.Nanoseconds()))
+	// retry budget
+	drop := atomic.Bool{}
+	drop.Store(true)
+	e.srv.mu.Lock()
+	e.srv.onRecv = func(id string, conn int) {
+		if drop.Load() {
+			e.net.mu.Lock()
+			c := e.net.conns[conn]
+			e.net.mu.Unlock()
+			c.kill(io.EOF)
+		}
+	}
+	e.srv.mu.Unlock()
+	c := e.plainOpt(e.begin("p"), false, false)
+	drop.Store(false)
+	if c.outcome == "err" {
+		e.res.Counts = append(e.res.Counts, fmt.Sprintf("budget=%d", c.frames))
+	}
+	e.settle()
+	e.plain(e.begin("p"), true)
 	e.finish(nil)
 	e.res.Scenario = ""
 }
 
-// C10: one caller is cancelled at a yield point (or times out) while N-1 others call concurrently.
+// dry run of the version negotiation: the I/O operation counts of Dial.
+func lcRunDryNeg(e *lcEnv) {
+	e.begin("p")
+	if err := e.dial(false); err != nil {
+		e.res.Fail = "Dial failed: " + err.Error()
+		e.finish(nil)
+		return
+	}
+	for same, last := 0, ""; same < 20; {
+		time.Sleep(250 * time.Microsecond)
+		r, w := e.net.opCounts()
+		if cur := fmt.Sprint(r, w); cur == last {
+			same++
+		} else {
+			same, last = 0, cur
+		}
+	}
+	r, w := e.net.opCounts()
+	e.res.Counts = append(e.res.Counts, fmt.Sprintf("dryneg=%d,%d", r[0], w[0]))
+	e.finish(nil)
+	e.res.Scenario = ""
+}
+
+// C10: one caller's context ends (cancellation or deadline) exactly at a yield point, while its request is being
+// written, while it is queued for the client, or by a timer, while N-1 others call concurrently; optionally after
+// a retryable fault has made the call reconnect (the context ends in the retry), and optionally a second abandoned
+// call follows the first; then a further call.
 func lcRunC10(e *lcEnv) {
 	if !e.warm() {
 		e.finish(nil)
@@ -637,6 +767,38 @@ func lcRunC10(e *lcEnv) {
 	}
 	spec := e.spec
 	abandoned := map[string]bool{}
+	deadline := strings.HasPrefix(spec.next, "dl")
+	rounds := 1
+	if strings.HasSuffix(spec.next, "twice") {
+		rounds = 2
+	}
+	e.arm(spec.faults...)
+	reached := true
+	var outcomes []string
+	for round := 0; round < rounds; round++ {
+		ok, vo := e.c10Round(round, deadline, abandoned)
+		reached = reached && ok
+		outcomes = append(outcomes, vo)
+	}
+	e.disarm()
+	p2 := e.begin("p")
+	e.plain(p2, true)
+	e.res.Nontrivial = reached
+	e.res.Counts = append(e.res.Counts, "c10.victim="+strings.Join(outcomes, "+"), "c10.point="+spec.pt, fmt.Sprintf("c10.reached=%v", reached))
+	e.finish(abandoned)
+}
+
+// c10Round: one abandoned call (and its concurrent callers). Returns whether the intended point was reached and
+// the victim's outcome.
+func (e *lcEnv) c10Round(round int, deadline bool, abandoned map[string]bool) (bool, string) {
+	spec := e.spec
+	n := spec.n
+	skip := 0
+	if round > 0 {
+		n = 1 // the second victim is alone
+	} else {
+		skip = len(spec.faults) // each (retryable) fault costs the victim one attempt
+	}
 	vid := e.id("v")
 	switch spec.srv {
 	case "late":
@@ -646,55 +808,132 @@ func lcRunC10(e *lcEnv) {
 		e.srv.silent[vid] = true
 		e.srv.mu.Unlock()
 	}
-	ctx, cancel := context.WithCancel(context.Background())
-	defer cancel()
+	vctx := newLcCallerCtx(deadline)
+	var ctx context.Context = vctx
 	reached := make(chan struct{})
 	release := make(chan struct{})
 	var once sync.Once
+	hit := func() { once.Do(func() { close(reached) }) }
 	victimDone := make(chan struct{})
-	point := lcPoints[spec.pt]
-	if spec.pt == "timeout" {
-		var c2 context.CancelFunc
-		ctx, c2 = context.WithTimeout(context.Background(), 15*time.Millisecond)
-		defer c2()
-		once.Do(func() { close(reached) })
-	} else {
+	followers := func(ph *lcPhase, k int) []*lcCall {
+		var fl []*lcCall
+		for i := 0; i < k; i++ {
+			fl = append(fl, e.start(context.Background(), e.id("f")))
+		}
+		return fl
+	}
+	checkFollowers := func(ph *lcPhase, fl []*lcCall) {
+		for _, c := range fl {
+			e.wait(c)
+			ph.record('p', c)
+			if c.outcome == "err" {
+				e.res.violate("C11", "recovers", "lts.cli:call-fails-without-fault",
+					fmt.Sprintf("call %q failed (%v) although only another caller's context ended", c.id, c.err))
+			}
+		}
+	}
+
+	if spec.pt == "queued" {
+		// H holds the client (its response is withheld), V is queued for the client when its context ends,
+		// then the followers arrive, then H's response is released.
+		hid := e.id("h")
+		e.srv.gate(hid)
+		ph := e.begin("px" + strings.Repeat("p", n-1))
+		h := e.start(context.Background(), hid)
+		dl := time.Now().Add(lcWaitEvent)
+		for e.srv.seenCount(hid) == 0 && time.Now().Before(dl) {
+			time.Sleep(50 * time.Microsecond)
+		}
+		ok := e.srv.seenCount(hid) > 0
+		v := e.start(ctx, vid)
+		time.Sleep(lcPause)
+		vctx.fire()
+		time.Sleep(lcPause)
+		fl := followers(ph, n-1)
+		time.Sleep(2 * lcPause)
+		e.srv.open(hid)
+		e.wait(h)
+		ph.record('p', h)
+		if h.outcome == "err" {
+			e.res.violate("C11", "recovers", "lts.cli:call-fails-without-fault",
+				fmt.Sprintf("call %q failed (%v) although only another caller's context ended", h.id, h.err))
+		}
+		e.wait(v)
+		ph.record('x', v)
+		if v.outcome == "err" && v.tx > 0 {
+			abandoned[vid] = true
+		}
+		checkFollowers(ph, fl)
+		e.srv.open(vid)
+		return ok, v.outcome
+	}
+
+	switch spec.pt {
+	case "timeout":
+		c2, cancel := context.WithTimeout(context.Background(), max(15*time.Millisecond, 20*lcPause))
+		defer cancel()
+		ctx = c2
+		hit()
+	case "inWrite":
+		var mu sync.Mutex
+		seen := 0
+		e.net.setInWrite(func(id string, c *lcConn) {
+			if id != vid {
+				return
+			}
+			mu.Lock()
+			seen++
+			mine := seen == skip+1
+			mu.Unlock()
+			if !mine {
+				return
+			}
+			// the write loop is inside Write, the caller waits in send for its outcome
+			vctx.fire()
+			hit()
+			select {
+			case <-victimDone:
+			case <-time.After(lcWaitEvent):
+			}
+		})
+		defer e.net.setInWrite(nil)
+	default:
+		point := lcPoints[spec.pt]
 		rx0 := e.dir.hitCount("cli.read.beforeRx")
-		e.dir.on(point, e.dir.hitCount(point), func() {
+		e.dir.on(point, e.dir.hitCount(point)+skip, func() {
 			if spec.pt == "afterSend" && spec.srv == "early" {
-				// the response is to be at the reader before the cancellation
-				dl := time.Now().Add(time.Second)
+				// the response is to be at the reader before the context ends
+				dl := time.Now().Add(lcWaitEvent / 2)
 				for e.dir.hitCount("cli.read.beforeRx") == rx0 && time.Now().Before(dl) {
 					time.Sleep(50 * time.Microsecond)
 				}
 			}
-			cancel()
-			once.Do(func() { close(reached) })
+			vctx.fire()
+			hit()
 			if spec.pt == "beforeRx" {
-				// the reader is held until the cancelled caller has returned
+				// the reader is held until the abandoned caller has returned
 				select {
 				case <-victimDone:
-				case <-time.After(2 * time.Second):
+				case <-time.After(lcWaitEvent):
 				}
 			}
 			select {
 			case <-release:
-			case <-time.After(2 * time.Second):
+			case <-time.After(lcWaitEvent):
 			}
 		})
 	}
-	ph := e.begin("x" + strings.Repeat("p", spec.n-1))
+	ph := e.begin("x" + strings.Repeat("p", n-1))
 	v := e.start(ctx, vid)
 	go func() { <-v.done; close(victimDone) }()
+	ok := false
 	select {
 	case <-reached:
+		ok = true
 	case <-v.done: // the point was not reached (e.g. no response for beforeRx): the call ended otherwise
-	case <-time.After(2 * time.Second):
+	case <-time.After(lcWaitEvent):
 	}
-	var fl []*lcCall
-	for i := 1; i < spec.n; i++ {
-		fl = append(fl, e.start(context.Background(), e.id("f")))
-	}
+	fl := followers(ph, n-1)
 	if spec.srv == "late" {
 		// the late response is produced once a follower's request has reached the server
 		e.srv.mu.Lock()
@@ -705,27 +944,30 @@ func lcRunC10(e *lcEnv) {
 		}
 		e.srv.mu.Unlock()
 	}
-	time.Sleep(200 * time.Microsecond)
+	time.Sleep(lcPause)
 	close(release)
 	e.wait(v)
 	ph.record('x', v)
 	if v.outcome == "err" {
 		abandoned[vid] = true
 	}
-	for _, c := range fl {
-		e.wait(c)
-		ph.record('p', c)
-		if c.outcome == "err" {
-			e.res.violate("C11", "recovers", "lts.cli:call-fails-without-fault",
-				fmt.Sprintf("call %q failed (%v) although only another caller's context was cancelled", c.id, c.err))
+	checkFollowers(ph, fl)
+	e.srv.open(vid)
+	e.srv.mu.Lock()
+	e.srv.onRecv = nil
+	e.srv.mu.Unlock()
+	return ok, v.outcome
+}
+
+// writeOnly: every armed fault is a failure of a Write (not "server closes after replying"). The call that gets a
+// write error returns only after the connection has been terminated, so the call that follows needs no settling.
+func lcWriteOnly(fs []*lcFault) bool {
+	for _, f := range fs {
+		if f.dir != 'w' || f.kind == "car" {
+			return false
 		}
 	}
-	e.srv.open(vid)
-	p2 := e.begin("p")
-	e.plain(p2, true)
-	e.res.Nontrivial = true
-	e.res.Counts = append(e.res.Counts, "c10.victim="+v.outcome, "c10.point="+spec.pt)
-	e.finish(abandoned)
+	return len(fs) > 0
 }
 
 // C11: faults on given operations of the exchange that follows the warm-up, then a next action.
@@ -735,8 +977,19 @@ func lcRunFlt(e *lcEnv) {
 		return
 	}
 	spec := e.spec
+	e.exactDials = spec.next == "close" || spec.next == "cclose"
+	for _, f := range spec.faults {
+		if f.dir == 'd' {
+			e.exactDials = true
+		}
+	}
 	e.arm(spec.faults...)
 	e.settle()
+	wonly := lcWriteOnly(spec.faults)
+	if spec.next == "conc" {
+		lcFltConc(e, wonly)
+		return
+	}
 	acts := "p"
 	var once sync.Once
 	var cwg sync.WaitGroup
@@ -765,15 +1018,16 @@ func lcRunFlt(e *lcEnv) {
 		closeNow()
 		cwg.Wait()
 	}
-	e.settle()
+	if !wonly {
+		e.settle()
+	}
 	switch spec.next {
 	case "call":
-		e.plain(e.begin("p"), true)
+		e.plainOpt(e.begin("p"), true, !wonly)
 	case "calls3":
 		p := e.begin("ppp")
 		for i := 0; i < 3; i++ {
-			e.settle()
-			e.plain(p, true)
+			e.plainOpt(p, true, !wonly)
 		}
 	case "close":
 		e.begin("K")
@@ -784,12 +1038,14 @@ func lcRunFlt(e *lcEnv) {
 	}
 	// whatever happened: once the injector is off and the faults are processed, a call succeeds
 	if !e.closed.Load() {
-		e.settle()
+		if !wonly {
+			e.settle()
+		}
 		e.disarm()
-		c := e.plain(e.begin("p"), true)
+		c := e.plainOpt(e.begin("p"), true, !wonly)
 		if c.outcome == "ok" {
 			for i, lc := range e.net.conns {
-				if lc.dead.Load() != nil && c.conn <= i {
+				if lc.broken() && c.conn <= i {
 					e.res.violate("C11", "fresh-connection", "lts.cli:call-on-broken-connection",
 						fmt.Sprintf("call %q was served on connection %d although connection %d had failed", c.id, c.conn, i))
 				}
@@ -800,9 +1056,55 @@ func lcRunFlt(e *lcEnv) {
 	e.finish(nil)
 }
 
+// lcFltConc: the fault hits a call while a second caller is waiting for the client; the second call runs as soon
+// as the first has returned ("at the latest the next call uses a fresh connection and succeeds").
+func lcFltConc(e *lcEnv, wonly bool) {
+	point := lcPoints["loaded"]
+	var k2 *lcCall
+	started := make(chan struct{})
+	e.dir.on(point, e.dir.hitCount(point), func() {
+		// K1 holds the client: issue K2 and give it the time to queue up
+		k2 = e.start(context.Background(), e.id("p"))
+		close(started)
+		time.Sleep(lcPause)
+	})
+	ph := e.begin("pp")
+	f0 := e.firedCount()
+	k1 := e.start(context.Background(), e.id("p"))
+	select {
+	case <-started:
+	case <-k1.done:
+	case <-time.After(lcWaitEvent):
+	}
+	e.wait(k1)
+	ph.record('p', k1)
+	queued := k2 != nil
+	if k2 == nil {
+		k2 = e.start(context.Background(), e.id("p"))
+	}
+	e.wait(k2)
+	ph.record('p', k2)
+	firedDuringK1 := k1.firedAt - f0
+	firedLater := e.firedCount() - k1.firedAt
+	e.res.Counts = append(e.res.Counts, "flt.conc.k1="+k1.outcome, "flt.conc.k2="+k2.outcome, fmt.Sprintf("flt.conc.queued=%v", queued))
+	// K2 must succeed when nothing failed after K1 had returned and K1's failure has been processed: a write
+	// error is reported only after the connection has been terminated; a call that failed through a read error
+	// returned because the connection had been terminated.
+	if k2.outcome == "err" && firedLater == 0 && firedDuringK1 > 0 && (wonly || k1.outcome == "err") {
+		e.res.violate("C11", "recovers", "lts.cli:next-call-fails-after-fault",
+			fmt.Sprintf("call %q (%s) was hit by the fault; call %q, which was waiting for the client and during which nothing failed, failed with: %v", k1.id, k1.outcome, k2.id, k2.err))
+	}
+	e.settle()
+	e.disarm()
+	e.plain(e.begin("p"), true)
+	e.res.Nontrivial = queued
+	e.finish(nil)
+}
+
 // C11: faults during the version negotiation of Dial.
 func lcRunNeg(e *lcEnv) {
 	spec := e.spec
+	e.exactDials = true
 	e.arm(spec.faults...)
 	e.begin("p")
 	err := e.dial(false)
@@ -814,15 +1116,18 @@ func lcRunNeg(e *lcEnv) {
 		e.render()
 		e.finish(nil)
 		e.res.Scenario, e.res.Outcome = "p/d", "0.1.0.0|d1"
+		if lcBudget > 0 {
+			e.res.Scenario = fmt.Sprintf("b%d;", lcBudget-1) + e.res.Scenario
+		}
 		return
 	}
 	if err != nil {
 		ph.errP++
 		e.begin("K") // DialContext closes the client it gives up
 		e.res.Counts = append(e.res.Counts, "neg=failed")
-		if n := lcSettle(e.base, 2*time.Second); n > e.base {
+		if n := lcSettle(e.base, lcWaitEvent); n > e.base {
 			e.res.violate("C11", "no-goroutine-left", "lts.cli:goroutines-after-failed-dial",
-				fmt.Sprintf("%d client goroutine(s) still running 2s after Dial returned an error", n-e.base))
+				fmt.Sprintf("%d goroutine(s) started by the client still running %v after Dial returned an error: %s", n-e.base, lcWaitEvent, lcGoroutineDump()))
 		}
 		e.render()
 		lcEnvCur.Lock()
@@ -850,6 +1155,7 @@ func lcRunCls(e *lcEnv) {
 		return
 	}
 	spec := e.spec
+	e.exactDials = true
 	e.arm(spec.faults...)
 	e.settle()
 	point := lcPoints[spec.pt]
@@ -878,7 +1184,10 @@ func lcRunCls(e *lcEnv) {
 	e.finish(nil)
 }
 
-// C11: the server closes the connection on receipt for the next n requests (retry budget).
+// C11: the server drops the connection on receipt of the next n requests — the client sees an end of stream
+// (srv = eof) or, its own end having been closed under it, a closed connection (srv = closed). The call
+// transmits n+1 times and succeeds, or uses up its budget and fails; the budget is the one OBSERVED by the dry
+// run, and the property bounds it by four transmissions.
 func lcRunRty(e *lcEnv) {
 	if !e.warm() {
 		e.finish(nil)
@@ -899,21 +1208,29 @@ func lcRunRty(e *lcEnv) {
 			e.net.mu.Lock()
 			c := e.net.conns[conn]
 			e.net.mu.Unlock()
-			c.kill(io.EOF)
+			if e.spec.srv == "closed" {
+				c.kill(&net.OpError{Op: "read", Net: "pipe", Err: net.ErrClosed})
+			} else {
+				c.kill(io.EOF)
+			}
 		}
 	}
 	e.srv.mu.Unlock()
 	e.extra[len(e.phases)] = strings.Repeat("e", n)
 	ph := e.begin("p")
-	c := e.plain(ph, false)
+	c := e.plainOpt(ph, false, false)
+	budget := lcBudget
+	if budget == 0 {
+		budget = lcMaxTransmissions
+	}
 	want := "ok"
 	wantTx := int64(n + 1)
-	if n >= 4 {
-		want, wantTx = "err", 4
+	if n >= budget {
+		want, wantTx = "err", int64(budget)
 	}
-	if c.outcome != want || c.writes != wantTx {
+	if c.outcome != want || c.frames != wantTx {
 		e.res.violate("C11", "retry-budget", "lts.cli:retry-budget",
-			fmt.Sprintf("server dropped %d connection(s): call returned %s after %d transmission(s), expected %s after %d", n, c.outcome, c.writes, want, wantTx))
+			fmt.Sprintf("server dropped %d connection(s) (%s): call returned %s after %d transmission(s), expected %s after %d (observed budget %d)", n, e.spec.srv, c.outcome, c.frames, want, wantTx, budget))
 	}
 	mu.Lock()
 	left = 0
@@ -921,6 +1238,121 @@ func lcRunRty(e *lcEnv) {
 	e.settle()
 	e.plain(e.begin("p"), true)
 	e.res.Nontrivial = true
+	e.finish(nil)
+}
+
+// C11, the window closed by "terminate before reporting a write error": the Write of call K1 fails (the read side of
+// the connection stays healthy) while K2 is waiting for the client. K2 runs as soon as K1 has returned and must
+// find the connection terminated. Between the report of the error and the cancellation of the connection context
+// there is no yield point, so the window is widened from outside: while the write loop is at cli.write.beforeErr,
+// n goroutines start polling Err() of the connection context, which delays its cancel() (Go's cancelCtx takes its
+// mutex in both). On the code as it is this only delays K1's return.
+func lcRunWin(e *lcEnv) {
+	if !e.warm() {
+		e.finish(nil)
+		return
+	}
+	spec := e.spec
+	e.arm(spec.faults...)
+	var k2 *lcCall
+	started := make(chan struct{})
+	pl := lcPoints["loaded"]
+	e.dir.on(pl, e.dir.hitCount(pl), func() {
+		k2 = e.start(context.Background(), e.id("p"))
+		close(started)
+		time.Sleep(lcPause)
+	})
+	stop := make(chan struct{})
+	var t0 atomic.Int64
+	var delay atomic.Int64
+	var wobj atomic.Value
+	pb := lcPoints["beforeErr"]
+	e.dir.on(pb, e.dir.hitCount(pb), func() {
+		obj := e.dir.lastObj(pb)
+		if cctx := lcConnCtx(obj); cctx != nil && spec.n > 0 {
+			wobj.Store(fmt.Sprintf("%p", obj))
+			lcHammer(cctx, spec.n, stop, lcWaitEvent/20)
+			t0.Store(time.Now().UnixNano())
+		}
+	})
+	pa := lcPoints["afterCancel"]
+	e.dir.onEvery(pa, func(obj any) {
+		if w, _ := wobj.Load().(string); w != "" && w == fmt.Sprintf("%p", obj) && t0.Load() != 0 && delay.Load() == 0 {
+			delay.Store(time.Now().UnixNano() - t0.Load())
+		}
+	})
+	ph := e.begin("pp")
+	f0 := e.firedCount()
+	k1 := e.start(context.Background(), e.id("p"))
+	select {
+	case <-started:
+	case <-k1.done:
+	case <-time.After(lcWaitEvent):
+	}
+	e.wait(k1)
+	ph.record('p', k1)
+	queued := k2 != nil
+	if k2 == nil {
+		k2 = e.start(context.Background(), e.id("p"))
+	}
+	e.wait(k2)
+	close(stop)
+	ph.record('p', k2)
+	widened := "no"
+	if d := time.Duration(delay.Load()); d >= 20*time.Microsecond {
+		widened = ">=20us"
+	}
+	e.res.Counts = append(e.res.Counts, "win.k1="+k1.outcome, fmt.Sprintf("win.k2=%s pollers=%d", k2.outcome, spec.n), "win.cancel-delayed="+widened)
+	if k2.outcome == "err" && e.firedCount() == k1.firedAt && k1.firedAt-f0 > 0 {
+		e.res.violate("C11", "recovers", "lts.cli:next-call-fails-after-write-error",
+			fmt.Sprintf("the Write of call %q failed (%v); call %q, which was waiting for the client and during which nothing failed, did not get a fresh connection and failed with: %v", k1.id, k1.err, k2.id, k2.err))
+	}
+	e.disarm()
+	e.plainOpt(e.begin("p"), true, false)
+	e.res.Nontrivial = queued && k1.outcome == "err"
+	e.finish(nil)
+}
+
+// C11 "returns promptly": the connection has been lost, the server cannot be reached (the dial does not return
+// until its context ends) and the caller's context ends: the call returns; afterwards the client recovers.
+func lcRunDlk(e *lcEnv) {
+	if !e.warm() {
+		e.finish(nil)
+		return
+	}
+	e.exactDials = true
+	// the server drops the idle connection
+	e.net.mu.Lock()
+	c0 := e.net.conns[0]
+	e.net.mu.Unlock()
+	c0.kill(io.EOF)
+	e.settle()
+	e.arm(&lcFault{dir: 'd', conn: e.net.dialCount(), k: 0, kind: "block"})
+	e.extra[len(e.phases)] = "e"
+	ph := e.begin("x")
+	vctx := newLcCallerCtx(e.spec.next == "dl")
+	v := e.start(vctx, e.id("v"))
+	dl := time.Now().Add(lcWaitEvent)
+	for e.net.blocked.Load() == 0 && time.Now().Before(dl) {
+		select {
+		case <-v.done:
+			dl = time.Now()
+		default:
+			time.Sleep(50 * time.Microsecond)
+		}
+	}
+	reached := e.net.blocked.Load() > 0
+	time.Sleep(lcPause)
+	vctx.fire()
+	e.wait(v)
+	ph.record('x', v)
+	if v.outcome == "ok" {
+		e.res.violate("C11", "returns-promptly", "lts.cli:call-succeeds-without-server", "a call returned a response although the server could not be reached")
+	}
+	e.disarm()
+	e.plain(e.begin("p"), true)
+	e.res.Nontrivial = reached
+	e.res.Counts = append(e.res.Counts, fmt.Sprintf("dlk.reached=%v", reached))
 	e.finish(nil)
 }
 
@@ -934,6 +1366,12 @@ func init() {
 		return
 	}
 	cliQuiet()
+	if v, err := strconv.ParseInt(os.Getenv(lcChildEnv+"_EXCH_NS"), 10, 64); err == nil {
+		lcCalibrate(time.Duration(v))
+	}
+	if v, err := strconv.Atoi(os.Getenv(lcChildEnv + "_BUDGET")); err == nil {
+		lcBudget = v
+	}
 	kmipclient.VerifYield = lcYieldEnv
 	in := bufio.NewScanner(os.Stdin)
 	in.Buffer(make([]byte, 1<<16), 1<<20)
@@ -959,6 +1397,9 @@ func init() {
 	os.Exit(0)
 }
 
+// what the dry run has measured, for the children.
+var lcChildExtraEnv []string
+
 // lcRunChild runs the specs in child processes; a crash is attributed to the scenario that was running.
 func lcRunChild(ctx *Ctx, specs []string) []*lcResult {
 	var results []*lcResult
@@ -966,7 +1407,7 @@ func lcRunChild(ctx *Ctx, specs []string) []*lcResult {
 		limit := time.Duration(len(specs))*3*time.Second + 30*time.Second
 		cctx, cancel := context.WithTimeout(context.Background(), limit)
 		cmd := exec.CommandContext(cctx, os.Args[0])
-		cmd.Env = append(os.Environ(), lcChildEnv+"=1")
+		cmd.Env = append(append(os.Environ(), lcChildEnv+"=1"), lcChildExtraEnv...)
 		cmd.Stdin = strings.NewReader(strings.Join(specs, "\n") + "\n")
 		var stderr strings.Builder
 		cmd.Stderr = &stderr
@@ -1041,7 +1482,13 @@ func lcRunChild(ctx *Ctx, specs []string) []*lcResult {
 // ---------------------------------------------------------------------------------------------
 // generation
 
-func lcSpecs(ctx *Ctx, dry [4]int) []string {
+type lcDry struct {
+	r0, w0, r1, w1 int // I/O operations of connection 0 after the warm-up / after one more exchange
+	nr, nw         int // I/O operations of Dial with version negotiation
+	budget         int // request messages one call transmits when every connection is dropped
+}
+
+func lcSpecs(ctx *Ctx, dry lcDry) []string {
 	var out []string
 	add := func(s *lcSpec) { out = append(out, s.String()) }
 	reps := ctx.N(1, 6) // thorough: the same scenarios again under random perturbation of the yield points
@@ -1050,22 +1497,40 @@ func lcSpecs(ctx *Ctx, dry [4]int) []string {
 		if rep > 0 {
 			seed = 1 + ctx.R.Intn(1<<30)
 		}
+		r0, w0, r1, w1 := dry.r0, dry.w0, dry.r1, dry.w1
 		// (a) C10
 		for _, n := range []int{2, 3, 4} {
-			for _, pt := range []string{"loaded", "afterSend", "beforeRx", "timeout"} {
+			for _, pt := range []string{"loaded", "afterSend", "beforeRx", "timeout", "inWrite"} {
 				for _, srv := range []string{"early", "late", "never"} {
 					if pt == "beforeRx" && srv != "early" {
 						continue // the reader holds a response only if the server answers
 					}
 					add(&lcSpec{fam: "c10", n: n, pt: pt, srv: srv, next: "-", seed: seed})
+					if pt != "timeout" && n <= 3 {
+						// the context ends by a deadline instead of a cancellation
+						add(&lcSpec{fam: "c10", n: n, pt: pt, srv: srv, next: "dl", seed: seed})
+					}
+					if n == 2 && pt != "timeout" {
+						// a second abandoned call follows the first
+						add(&lcSpec{fam: "c10", n: n, pt: pt, srv: srv, next: "twice", seed: seed})
+					}
 				}
+			}
+			// the caller gives up while it is queued for the client, behind a call whose response is late
+			add(&lcSpec{fam: "c10", n: n, pt: "queued", srv: "early", next: "-", seed: seed})
+			add(&lcSpec{fam: "c10", n: n, pt: "queued", srv: "early", next: "dl", seed: seed})
+		}
+		// the context ends in the retry loop: the first attempt hits an end of stream, the second one is abandoned
+		for _, pt := range []string{"loaded", "afterSend", "inWrite"} {
+			for _, next := range []string{"-", "dl", "twice"} {
+				add(&lcSpec{fam: "c10", n: 2, pt: pt, srv: "early", next: next, seed: seed,
+					faults: []*lcFault{{dir: 'r', conn: 0, k: r0 - 1, kind: "eof", timing: "data"}}})
 			}
 		}
 		// (b) C11: every operation of the exchange x kind x next action
-		r0, w0, r1, w1 := dry[0], dry[1], dry[2], dry[3]
 		var pts []*lcFault
 		for k := w0; k < w1; k++ {
-			for _, kind := range []string{"closed", "reset", "short", "eof", "car"} {
+			for _, kind := range []string{"closed", "reset", "short", "eof", "car", "hreset", "hclosed", "late"} {
 				pts = append(pts, &lcFault{dir: 'w', conn: 0, k: k, kind: kind})
 			}
 		}
@@ -1083,7 +1548,7 @@ func lcSpecs(ctx *Ctx, dry [4]int) []string {
 			}
 		}
 		for _, f := range pts {
-			for _, next := range []string{"call", "calls3", "close", "cclose"} {
+			for _, next := range []string{"call", "calls3", "close", "cclose", "conc"} {
 				cp := *f
 				add(&lcSpec{fam: "flt", pt: "-", srv: "-", faults: []*lcFault{&cp}, next: next, seed: seed})
 			}
@@ -1093,12 +1558,14 @@ func lcSpecs(ctx *Ctx, dry [4]int) []string {
 			{dir: 'r', conn: 0, k: r0 - 1, kind: "eof", timing: "data"},
 			{dir: 'r', conn: 0, k: r0 - 1, kind: "reset", timing: "call"},
 			{dir: 'w', conn: 0, k: w0, kind: "closed"},
+			{dir: 'w', conn: 0, k: w0, kind: "hclosed"},
 		} {
 			seconds := []*lcFault{
 				{dir: 'd', conn: 1, k: 0, kind: "refused"},
 				{dir: 'd', conn: 1, k: 0, kind: "refused", rep: 1},
 				{dir: 'w', conn: 1, k: 0, kind: "reset"},
 				{dir: 'w', conn: 1, k: 0, kind: "closed"},
+				{dir: 'w', conn: 1, k: 0, kind: "hreset"},
 				{dir: 'r', conn: 1, k: 0, kind: "eof", timing: "data"},
 				{dir: 'r', conn: 1, k: 0, kind: "reset", timing: "data"},
 				{dir: 'r', conn: 1, k: 1, kind: "partial", timing: "data"},
@@ -1111,16 +1578,18 @@ func lcSpecs(ctx *Ctx, dry [4]int) []string {
 				}
 			}
 		}
-		// (c) faults during the version negotiation of Dial
+		// (c) faults during the version negotiation of Dial: every I/O operation the dry run of Dial has seen
 		add(&lcSpec{fam: "neg", pt: "-", srv: "-", next: "-", seed: seed})
 		add(&lcSpec{fam: "neg", pt: "-", srv: "-", next: "-", seed: seed, faults: []*lcFault{{dir: 'd', conn: 0, k: 0, kind: "refused"}}})
-		for _, kind := range []string{"closed", "reset", "short", "eof", "car"} {
-			add(&lcSpec{fam: "neg", pt: "-", srv: "-", next: "-", seed: seed, faults: []*lcFault{{dir: 'w', conn: 0, k: 0, kind: kind}}})
+		for k := 0; k < dry.nw; k++ {
+			for _, kind := range []string{"closed", "reset", "short", "eof", "car", "hreset", "hclosed"} {
+				add(&lcSpec{fam: "neg", pt: "-", srv: "-", next: "-", seed: seed, faults: []*lcFault{{dir: 'w', conn: 0, k: k, kind: kind}}})
+			}
 		}
-		for k := 0; k < 3; k++ {
+		for k := 0; k < dry.nr; k++ {
 			for _, kind := range []string{"eof", "closed", "reset", "partial"} {
 				for _, tm := range []string{"call", "data"} {
-					if (kind == "partial" && tm == "call") || (k == 2 && tm == "data") {
+					if (kind == "partial" && tm == "call") || (k == dry.nr-1 && tm == "data") {
 						continue
 					}
 					add(&lcSpec{fam: "neg", pt: "-", srv: "-", next: "-", seed: seed, faults: []*lcFault{{dir: 'r', conn: 0, k: k, kind: kind, timing: tm}}})
@@ -1136,15 +1605,29 @@ func lcSpecs(ctx *Ctx, dry [4]int) []string {
 			}
 			add(&lcSpec{fam: "cls", n: async, pt: "beforeErr", srv: "-", next: "-", seed: seed, faults: []*lcFault{{dir: 'w', conn: 0, k: w0, kind: "reset"}}})
 			add(&lcSpec{fam: "cls", n: async, pt: "beforeErr", srv: "-", next: "-", seed: seed, faults: []*lcFault{{dir: 'w', conn: 0, k: w0, kind: "closed"}}})
+			add(&lcSpec{fam: "cls", n: async, pt: "beforeErr", srv: "-", next: "-", seed: seed, faults: []*lcFault{{dir: 'w', conn: 0, k: w0, kind: "hreset"}}})
 			add(&lcSpec{fam: "cls", n: async, pt: "afterCancel", srv: "-", next: "-", seed: seed, faults: []*lcFault{{dir: 'r', conn: 0, k: r0 - 1, kind: "reset", timing: "data"}}})
 			add(&lcSpec{fam: "cls", n: async, pt: "afterCancel", srv: "-", next: "-", seed: seed, faults: []*lcFault{{dir: 'r', conn: 0, k: r0 - 1, kind: "eof", timing: "data"}}})
 			add(&lcSpec{fam: "cls", n: async, pt: "beforeReconnect", srv: "-", next: "-", seed: seed, faults: []*lcFault{{dir: 'r', conn: 0, k: r0 - 1, kind: "eof", timing: "data"}}})
 			add(&lcSpec{fam: "cls", n: async, pt: "beforeReconnect", srv: "-", next: "-", seed: seed, faults: []*lcFault{{dir: 'w', conn: 0, k: w0, kind: "closed"}}})
 		}
-		// (e) retry budget
-		for n := 1; n <= 5; n++ {
-			add(&lcSpec{fam: "rty", n: n, pt: "-", srv: "-", next: "-", seed: seed})
+		// (e) retry budget: up to one drop more than the observed budget (at least 5), both ways of losing a connection
+		for n := 1; n <= max(5, dry.budget+1); n++ {
+			for _, how := range []string{"eof", "closed"} {
+				add(&lcSpec{fam: "rty", n: n, pt: "-", srv: how, next: "-", seed: seed})
+			}
 		}
+		// (f) a write error while a second caller is waiting, the cancellation of the connection delayed
+		for i := 0; i < ctx.N(8, 12); i++ {
+			for _, hammer := range []int{2, 4, 8} {
+				for _, kind := range []string{"hreset", "short"} {
+					add(&lcSpec{fam: "win", n: hammer, pt: "-", srv: "-", next: "-", seed: seed, faults: []*lcFault{{dir: 'w', conn: 0, k: w0, kind: kind}}})
+				}
+			}
+		}
+		// (g) unreachable server and a caller that gives up
+		add(&lcSpec{fam: "dlk", pt: "-", srv: "-", next: "-", seed: seed})
+		add(&lcSpec{fam: "dlk", pt: "-", srv: "-", next: "dl", seed: seed})
 	}
 	return out
 }
@@ -1182,30 +1665,56 @@ func runLtsCli(ctx *Ctx) {
 				specs = append(specs, f[3])
 			}
 		}
-	} else {
-		dryRes := lcRunChild(ctx, []string{(&lcSpec{fam: "dry", pt: "-", srv: "-", next: "-"}).String()})
-		dry := [4]int{3, 1, 5, 2}
-		found := false
+	}
+	// dry runs (always, also for a replay): operation counts, time scale, observed retry budget
+	dry := lcDry{r0: 3, w0: 1, r1: 5, w1: 2, nr: 3, nw: 1}
+	{
+		dryRes := lcRunChild(ctx, []string{(&lcSpec{fam: "dry", pt: "-", srv: "-", next: "-"}).String(), (&lcSpec{fam: "dryneg", pt: "-", srv: "-", next: "-"}).String()})
+		found, foundNeg := false, false
+		exch := int64(0)
 		for _, r := range dryRes {
+			if r.Fail != "" {
+				ctx.Res.Fail("lts.cli " + r.Spec + ": " + r.Fail)
+			}
 			for _, c := range r.Counts {
-				if strings.HasPrefix(c, "dry=") {
-					p := strings.Split(strings.TrimPrefix(c, "dry="), ",")
-					if len(p) == 4 {
-						for i := range p {
-							dry[i], _ = strconv.Atoi(p[i])
-						}
+				switch {
+				case strings.HasPrefix(c, "dry="):
+					if _, err := fmt.Sscanf(c, "dry=%d,%d,%d,%d", &dry.r0, &dry.w0, &dry.r1, &dry.w1); err == nil {
 						found = true
 					}
+				case strings.HasPrefix(c, "dryneg="):
+					if _, err := fmt.Sscanf(c, "dryneg=%d,%d", &dry.nr, &dry.nw); err == nil {
+						foundNeg = true
+					}
+				case strings.HasPrefix(c, "exch="):
+					fmt.Sscanf(c, "exch=%d", &exch)
+				case strings.HasPrefix(c, "budget="):
+					fmt.Sscanf(c, "budget=%d", &dry.budget)
 				}
 			}
 			for _, v := range r.Viol {
 				ctx.Res.Violate(report.Violation{Property: v.Property, Oracle: v.Oracle, Key: v.Key, Detail: v.Detail, Line: "# lts.cli " + r.Spec})
 			}
 		}
-		if !found {
-			ctx.Res.Fail("lts.cli: the dry run did not report operation counts")
+		if !found || !foundNeg {
+			ctx.Res.Fail("lts.cli: the dry runs did not report operation counts")
 		}
-		ctx.Res.Count(fmt.Sprintf("dry-run ops: reads %d->%d writes %d->%d", dry[0], dry[2], dry[1], dry[3]))
+		if dry.budget == 0 {
+			ctx.Res.Fail("lts.cli: the dry run did not observe the retry budget (a call whose every connection is dropped did not fail)")
+		}
+		ctx.Res.Count(fmt.Sprintf("dry-run ops: reads %d->%d writes %d->%d; negotiation: %d reads %d writes; observed budget: %d transmissions", dry.r0, dry.r1, dry.w0, dry.w1, dry.nr, dry.nw, dry.budget))
+		lcChildExtraEnv = []string{fmt.Sprintf("%s_EXCH_NS=%d", lcChildEnv, exch), fmt.Sprintf("%s_BUDGET=%d", lcChildEnv, dry.budget)}
+		// the budget the model has must be the one the code has
+		ctx.Add("lts.budget cliconn current", fmt.Sprintf("ok %d", dry.budget), true, "C11")
+		// the fusion of no-op steps in the model is checked by evaluation: the unfused system is explored, the
+		// bad-state predicates are evaluated on all its states, and every state is mapped into the fused set
+		ctx.Add("lts.unfused cliconn current", "ok clean", true, "C10,C11")
+		if dry.budget > lcMaxTransmissions {
+			ctx.Res.Violate(report.Violation{Property: "C11", Oracle: "transmissions", Key: "lts.cli:more-than-4-transmissions",
+				Detail: fmt.Sprintf("a call whose every connection is dropped by the server on receipt of the request put %d request messages on the wire", dry.budget), Line: "# lts.cli dry:0:-:-:-:-:0"})
+		}
+	}
+	if len(ctx.Replay) == 0 {
 		specs = lcSpecs(ctx, dry)
 	}
 	// batches, so that a crash costs little and the children run in parallel
